@@ -249,6 +249,9 @@ LITS = [
     ("npstats_mom1", "wavespectra/core/npstats.py", "mom1"),
     ("npstats_dpm", "wavespectra/core/npstats.py", "dpm"),
     ("npstats_alpha", "wavespectra/core/npstats.py", "alpha"),
+    ("tracking_match", "wavespectra/partition/tracking.py", "match_consecutive_partitions"),
+    ("tracking_np_track", "wavespectra/partition/tracking.py", "np_track_partitions"),
+    ("tracking_dfp_swell", "wavespectra/partition/tracking.py", "dfp_swell"),
 ]
 
 PRELUDE = """import WsVerif.Model.Basic
